@@ -73,8 +73,6 @@ def body_nodoc(fn):
 def kwonly_defaults(fn, names):
     out = []
     a = fn.args
-    if a.kwarg is not None and fn.name == "__init__" and False:
-        raise Unclassified("**kwargs")
     for arg, d in zip(a.kwonlyargs, a.kw_defaults):
         if arg.arg in names:
             if d is None:
